@@ -75,6 +75,10 @@ LetCases == {
   One(Q("forall", <<<<"x", SInt>>>>, Let(<<<<"y", SPlus(x, Nm(1))>>>>, Lt(x, y))), "let-under-binder"),
   One(Let(<<<<"k", Nm(2)>>>>, Let(<<<<"k", SPlus(A("k"), A("k"))>>, <<"m", A("k")>>>>, Eq(SPlus(A("k"), A("m")), x))), "let-nested-parallel-2"),
   One(Let(<<<<"e", Eq(x, y)>>>>, Ap("=>", <<A("e"), A("e")>>)), "let-bool"),
+  \* an inner scope rebinding a name to the very value it already has, the name used again after the inner scope
+  One(Let(<<<<"x", Nm(1)>>>>, Ap("and", <<Let(<<<<"x", Nm(1)>>>>, Ap(">", <<x, Nm(0)>>)), Eq(x, Nm(1)), Lt(x, y)>>)), "let-rebind-same-value"),
+  One(Let(<<<<"x", y>>>>, Ap("and", <<Let(<<<<"x", y>>>>, Lt(x, z)), Lt(z, x)>>)), "let-rebind-same-symbol"),
+  One(Q("forall", <<<<"x", SInt>>>>, Ap("and", <<Q("exists", <<<<"x", SInt>>>>, Lt(x, y)), Lt(y, x)>>)), "quant-rebind-same-variable"),
   Rej(Let(<<<<"k", Nm(2)>>, <<"k", Nm(3)>>>>, Eq(A("k"), x)), "let-duplicate-binder"),
   Rej(Let(<<<<"k", A("undefined_w")>>>>, Eq(A("k"), x)), "let-undeclared-in-value") }
 
